@@ -366,38 +366,39 @@ def report(ctx, rule_a, rule_b):
 # (c) sub-path change filter: Parameters._watch_group + _resolve_dynamic_deps + _m_caller +
 #     _sync_caller + _skip_event interpreted together
 # --------------------------------------------------------------------------------------------------
-SPECS = ["sub.x", "sub.y", "sub.x:bounds", "sub.subsub.z", "sub.param", "sub.subsub.param"]
+SPECS = ["sub.x", "sub.y", "sub.x:bounds", "sub.subsub.z", "sub.param", "sub.subsub.param", "sub.subsub.leaf.w"]
+_REF = {k: Obj("value_of_" + k) for k in ("x", "y", "z", "w", "bx", "by", "bz", "bw", "sname", "tname", "uname")}
 
 
-def _world(variant=None):
-    """top.sub -> S(x, y, subsub -> T(z)).  `variant` builds an S that differs from the reference in one respect."""
-    ref = _world.values
-
-    def leaf(k):
-        return Obj("other_value_of_" + k) if variant == k else ref[k]
-    t = Obj("T", z=leaf("z"), name=ref["tname"])
-    t.attrs["param"] = {"name": Obj("T.param.name"), "z": Obj("T.param.z", bounds=ref["bz"])}
-    if variant not in ("z", "subsub", None, "x", "y", "bx"):
-        raise AssertionError(variant)
-    s = Obj("S", x=leaf("x"), y=leaf("y"), subsub=t, name=ref["sname"])
-    s.attrs["param"] = {"name": Obj("S.param.name"), "x": Obj("S.param.x", bounds=leaf("bx")), "y": Obj("S.param.y", bounds=ref["by"]), "subsub": Obj("S.param.subsub", bounds=None)}
-    return s, t
+def _mk_u(w=None):
+    u = Obj("U", w=w or _REF["w"], name=_REF["uname"])
+    u.attrs["param"] = {"name": Obj("U.param.name", bounds=None), "w": Obj("U.param.w", bounds=_REF["bw"])}
+    return u
 
 
-_world.values = {k: Obj("value_of_" + k) for k in ("x", "y", "z", "bx", "by", "bz", "sname", "tname")}
+def _mk_t(z=None, leaf=None):
+    t = Obj("T", z=z or _REF["z"], leaf=leaf or _mk_u(), name=_REF["tname"])
+    t.attrs["param"] = {"name": Obj("T.param.name", bounds=None), "z": Obj("T.param.z", bounds=_REF["bz"]), "leaf": Obj("T.param.leaf", bounds=None)}
+    return t
 
 
-def _resolved(spec, top, s, t):
+def _mk_s(x=None, y=None, bx=None, subsub=None):
+    s = Obj("S", x=x or _REF["x"], y=y or _REF["y"], subsub=subsub or _mk_t(), name=_REF["sname"])
+    s.attrs["param"] = {"name": Obj("S.param.name", bounds=None), "x": Obj("S.param.x", bounds=bx or _REF["bx"]), "y": Obj("S.param.y", bounds=_REF["by"]),
+                        "subsub": Obj("S.param.subsub", bounds=None)}
+    return s
+
+
+def _resolved(spec, top):
     """What _resolve_mcs_deps(obj, [], [DInfo(spec)]) yields: every intermediate object's parameter, then the leaves."""
     def pinfo(inst, name, what="value"):
         return Obj("PInfo(%s.%s:%s)" % (inst.name, name, what), inst=inst, cls=Obj("cls_of_" + inst.name), name=name, what=what, pobj=None, mode="instance")
     path, _, what = spec.partition(":")
     parts = path.split(".")
-    objs = {"sub": s, "subsub": t}
     out, cur = [], top
     for p in parts[:-1]:
         out.append(pinfo(cur, p))
-        cur = objs[p]
+        cur = cur.attrs[p]
     if parts[-1] == "param":
         out += [pinfo(cur, n) for n in cur.attrs["param"]]
     else:
@@ -405,10 +406,16 @@ def _resolved(spec, top, s, t):
     return out
 
 
-def _sensitive(spec, diff):
-    """Does the value reached through `spec` differ between the reference sub-object and its `diff` variant?"""
-    return {"sub.x": diff == "x", "sub.y": diff == "y", "sub.x:bounds": diff == "bx", "sub.subsub.z": diff == "z", "sub.subsub.param": diff == "z",
-            "sub.param": diff in ("x", "y", "z", "subsub")}[spec]      # the variants z / subsub attach a different subsub object
+def _reach(obj, tail, what):
+    """The values reached from `obj` through the rest of a dependency path (identity of abstract values stands for equality)."""
+    cur = obj
+    for p in tail[:-1]:
+        cur = cur.attrs[p]
+    if tail[-1] == "param":
+        return [cur.attrs[n] for n in cur.attrs["param"]]
+    if what != "value":
+        return [cur.attrs["param"][tail[-1]].attrs[what]]
+    return [cur.attrs[tail[-1]]]
 
 
 def path_filter(ctx):
@@ -422,15 +429,23 @@ def path_filter(ctx):
     combos = [c for r in (1, 2, 3) for c in itertools.permutations(SPECS, r)]
     for specs in combos:
         top = Obj("top", cb=Obj("bound_method_cb"))
-        s_old, t_old = _world()
+        u_old = _mk_u()
+        t_old = _mk_t(leaf=u_old)
+        s_old = _mk_s(subsub=t_old)
         top.attrs["sub"] = s_old
         top.attrs["param"] = {"sub": Obj("top.param.sub", bounds=None)}
-        owner_of = {id(o.attrs["param"]): o for o in (top, s_old, t_old)}
+        owner_of = {id(o.attrs["param"]): o for o in (top, s_old, t_old, u_old)}
         ddeps = {sp: Obj("DInfo(%s)" % sp, spec=sp) for sp in specs}
         grouped = collections.OrderedDict()
         for sp in specs:
-            for dep in _resolved(sp, top, s_old, t_old):
+            for dep in _resolved(sp, top):
                 grouped.setdefault((id(dep.attrs["inst"]), dep.attrs["what"]), []).append((ddeps[sp], dep))
+        # replacement objects: each differs from the attached one in exactly one value (new holders are built down to it)
+        s_variants = [("equal in every value reached", _mk_s(subsub=t_old)), ("that differs in x", _mk_s(x=Obj("other_x"), subsub=t_old)), ("that differs in y", _mk_s(y=Obj("other_y"), subsub=t_old)),
+                      ("that differs in the bounds of x", _mk_s(bx=Obj("other_bounds"), subsub=t_old)), ("with another subsub object (same z, same leaf)", _mk_s(subsub=_mk_t(leaf=u_old))),
+                      ("whose subsub.z differs", _mk_s(subsub=_mk_t(z=Obj("other_z"), leaf=u_old))), ("whose subsub.leaf.w differs", _mk_s(subsub=_mk_t(leaf=_mk_u(w=Obj("other_w")))))]
+        t_variants = [("with the same z and the same leaf", _mk_t(leaf=u_old)), ("with another z", _mk_t(z=Obj("other_z"), leaf=u_old)), ("whose leaf.w differs", _mk_t(leaf=_mk_u(w=Obj("other_w"))))]
+        u_variants = [("with the same w", _mk_u()), ("with another w", _mk_u(w=Obj("other_w")))]
         for group in grouped.values():
             installed, rebinds, fired = [], [], []
 
@@ -492,27 +507,32 @@ def path_filter(ctx):
                 problems.append("%s: the watcher does not call the dependent method" % gdesc)
                 continue
             # ---- events this watcher can receive
+            holder_path = {id(top): [], id(s_old): ["sub"], id(t_old): ["sub", "subsub"], id(u_old): ["sub", "subsub", "leaf"]}[id(inst)]
             events = []
             for nme in names_wanted:
-                here = [(sp, d) for (dd, d) in group for sp in [dd.attrs["spec"]] if d.attrs["name"] == nme]
-                if inst is top and nme == "sub":
-                    for diff in (None, "x", "y", "z", "subsub", "bx"):
-                        s_new, _t = _world(diff)
-                        if diff not in ("z", "subsub"):
-                            s_new.attrs["subsub"] = t_old          # the very same grandchild
-                        want = any(_sensitive(sp, diff) for sp, _ in here) if diff else False
-                        events.append(("top.sub replaced by an object %s" % ("equal in every value reached" if diff is None else "that differs in " + {"bx": "the bounds of x", "subsub": "the attached subsub object (same z)"}.get(diff, diff)),
-                                       Obj("Event", name="sub", old=s_old, new=s_new), want, False))
-                elif inst is s_old and nme == "subsub":
-                    for diff in ("subsub", "z"):
-                        _s, t_new = _world(diff)
-                        leafy = any(sp == "sub.param" for sp, _ in here)          # the object itself is the value depended on
-                        below = any(sp in ("sub.subsub.z", "sub.subsub.param") for sp, _ in here)
-                        want = leafy or (diff == "z" and below)
-                        events.append(("sub.subsub replaced by an object with %s z" % ("the same" if diff == "subsub" else "a different"),
-                                       Obj("Event", name="subsub", old=t_old, new=t_new), want, below))
-                else:
+                here = [sp for (dd, d) in group for sp in [dd.attrs["spec"]] if d.attrs["name"] == nme]
+                variants = {("top", "sub"): s_variants, ("S", "subsub"): t_variants, ("T", "leaf"): u_variants}.get((inst.name, nme))
+                old_obj = inst.attrs.get(nme)
+                if variants is None or group[0][1].attrs["what"] != "value":
                     events.append(("%s.%s assigned" % (inst.name, nme), Obj("Event", name=nme, old=Obj("old_leaf_value"), new=Obj("new_leaf_value")), True, False))
+                    continue
+                for vdesc, new_obj in variants:
+                    want, passes_through = False, False
+                    for sp in here:
+                        path, _, what_ = sp.partition(":")
+                        parts = path.split(".")
+                        depth = len(holder_path)
+                        if parts[:depth] != holder_path or not (parts[depth] == nme or (parts[depth] == "param" and depth == len(parts) - 1)):
+                            raise AnalysisError("depends model: internal inconsistency for %s at %s.%s" % (sp, inst.name, nme))
+                        tail = parts[depth + 1:]
+                        if not tail:
+                            want = True          # the object held here IS the value depended on (a leaf of `...param`)
+                            continue
+                        passes_through = True
+                        a, b = _reach(old_obj, tail, what_ or "value"), _reach(new_obj, tail, what_ or "value")
+                        if len(a) != len(b) or any(x is not y for x, y in zip(a, b)):
+                            want = True
+                    events.append(("%s.%s replaced by an object %s" % (inst.name, nme, vdesc), Obj("Event", name=nme, old=old_obj, new=new_obj), want, passes_through and inst is not top))
             for edesc, ev, want_fire, want_rebind in events:
                 del rebinds[:]
                 del fired[:]
@@ -534,7 +554,8 @@ def path_filter(ctx):
                         gdesc, edesc, len(fired), 1 if want_fire else 0,
                         "a value reached through one of the dependencies changed" if want_fire else "no value reached through a dependency watched here changed"))
                 if want_rebind and not any(o is top and a == "sub" for o, a in rebinds):
-                    problems.append("%s: %s: the parent is not told to re-resolve its dependencies (the watcher below stays on the detached object)" % (gdesc, edesc))
+                    problems.append("%s: %s: the object that owns the method is not told to re-resolve its dependencies (%s): the watchers below stay on the detached object" % (
+                        gdesc, edesc, "told instead: %s" % ", ".join("%s._update_deps(%r)" % (getattr(o, "name", o), a) for o, a in rebinds) if rebinds else "nobody is told"))
     return n, problems
 
 
@@ -547,3 +568,108 @@ def report_filter(ctx, rule):
     else:
         ctx.ok(rule, f, f.node, "depends model: %d (dependency list, watcher, event) cases over ordered lists of 1..3 of %s: the method runs iff a value reached through one of the "
                                 "dependencies sharing the watcher changed; an intermediate replacement tells the parent to re-resolve" % (n, SPECS))
+
+
+# --------------------------------------------------------------------------------------------------
+# (d) resolution of a path dependency: Parameters._spec_to_obj interpreted on chains with a detached link
+# --------------------------------------------------------------------------------------------------
+def resolution(ctx):
+    import re as _re
+    f = ctx.repo.func(P + "Parameters._spec_to_obj")
+    problems, n = [], 0
+
+    def parse(spec):          # what _parse_dependency_spec documents: (".path" or None, attribute, what)
+        spec = spec.strip()
+        m = _re.match("(?P<path>[^:]*):?(?P<what>.*)", spec)
+        what, path = m.group("what"), "." + m.group("path")
+        m = _re.match(r"(?P<obj>.*)(\.)(?P<attr>.*)", path)
+        return (m.group("obj") or None, m.group("attr"), what or "value")
+
+    chain = ["a", "b", "c"]
+    for spec, cut in [(sp, cut) for sp in ("a.x", "a.b.x", "a.b.c.x", "a.b.c.x:bounds", "a.b.param") for cut in range(0, sp.split(":")[0].count(".") + 1)]:
+        # cut = number of sub-objects attached along the path (the next link holds None)
+        names = spec.split(":")[0].split(".")
+        depth = len(names) - 1
+        objs = []
+        for i in range(depth + 1):
+            o = Obj("top" if i == 0 else "obj_" + "_".join(names[:i]))
+            o.attrs["__type__"] = Obj("type_of_" + o.name)
+            objs.append(o)
+        for i in range(depth + 1):
+            o = objs[i]
+            pnames = ([names[i]] if i < depth else (["x", "y"] if names[-1] == "param" else [names[-1]]))
+            pobjs = {k: Obj("%s.param.%s" % (o.name, k)) for k in pnames}
+            ns = Obj("namespace_of_" + o.name, __cls__=P + "Parameters", self_or_cls=o, self=o, cls=o.attrs["__type__"], __contains__=list(pobjs), __getitem__=dict(pobjs), __iter__=list(pobjs))
+            o.attrs["param"] = ns
+            for k in pnames:
+                o.attrs[k] = None
+            if i < depth:
+                o.attrs[names[i]] = objs[i + 1] if i < cut else None
+
+        def hook(fn, args, kwargs):
+            if fn == "_parse_dependency_spec" and len(args) == 1 and isinstance(args[0], str):
+                return parse(args[0])
+            if fn == "isinstance" and len(args) == 2:
+                if isinstance(args[0], str):
+                    return False                       # a spec string is not a Parameter
+                return False                           # the objects of this world are plain instances: neither classes nor Parameterized / functions
+            if fn == "hasattr" and len(args) == 2:
+                return isinstance(args[0], Obj) and args[1] in args[0].attrs
+            if fn == "type" and len(args) == 1 and isinstance(args[0], Obj):
+                return args[0].attrs.get("__type__")
+            if fn == "_getattrr" and len(args) >= 2 and isinstance(args[1], str):
+                cur = args[0]
+                for a in args[1].split("."):
+                    if isinstance(cur, Obj) and a in cur.attrs:
+                        cur = cur.attrs[a]
+                    elif len(args) > 2:
+                        return args[2]
+                    else:
+                        raise Unsupported("_getattrr(%r, %r)" % (args[0], args[1]))
+                return cur
+            return NotImplemented
+        it = Interp(ctx.hier, dyn=P + "Parameters", inline=lambda m: m == "_spec_to_obj", call_hook=hook, strict_self_calls=True, max_steps=60000)
+        try:
+            outs = it.run_all(f, {"self_": objs[0].attrs["param"], "spec": spec, "dynamic": True, "intermediate": True})
+        except Unsupported as e:
+            raise AnalysisError("depends model: absint cannot interpret Parameters._spec_to_obj: %s" % e)
+        if len(outs) != 1 or outs[0].imprecise:
+            raise AnalysisError("depends model: Parameters._spec_to_obj is not interpretable precisely on %r (%s)" % (spec, outs[0].notes[:2] if outs else "no outcome"))
+        n += 1
+        desc = "dependency %r with %s" % (spec, "the whole path attached" if cut == depth else "%s holding None" % ".".join(["self"] + names[:cut + 1]))
+        if outs[0].kind != "return" or not (isinstance(outs[0].value, tuple) and len(outs[0].value) == 2 and isinstance(outs[0].value[0], list)):
+            problems.append("%s: resolution %s" % (desc, "raises %s" % outs[0].value if outs[0].kind == "raise" else "returns %r" % (outs[0].value,)))
+            continue
+        got = []
+        for d in outs[0].value[0]:
+            kw = getattr(d, "kwargs", None)
+            if not isinstance(kw, dict):
+                raise AnalysisError("depends model: _spec_to_obj returned something that is not a keyword-built PInfo (%r)" % (d,))
+            got.append((kw.get("inst"), kw.get("name"), kw.get("what")))
+        want = []
+        what = spec.partition(":")[2] or "value"
+        # with the root attribute itself holding None nothing needs watching: every assignment of the root re-resolves (R07.c)
+        for i in range(0 if cut == 0 else min(cut, depth - 1) + 1):
+            want.append((objs[i], names[i], "value"))
+        if cut == depth:
+            leafs = ["x", "y"] if names[-1] == "param" else [names[-1]]
+            want += [(objs[depth], k, what) for k in leafs]
+        miss = [w for w in want if not any(g[0] is w[0] and g[1] == w[1] and g[2] == w[2] for g in got)]
+        extra = [g for g in got if not any(g[0] is w[0] and g[1] == w[1] and g[2] == w[2] for w in want) and not (cut == 0 and g[0] is objs[0] and g[1] == names[0])]
+        dup = len(got) > len(want) + (1 if cut == 0 else 0) and not miss and not extra
+        if miss:
+            problems.append("%s: %s.%s is not among the parameters to watch: %s" % (desc, miss[0][0].name, miss[0][1],
+                            "attaching an object there later is never noticed" if miss[0][0] is not objs[depth] or cut < depth else "the leaf is not watched"))
+        elif extra or dup:
+            problems.append("%s: the resolution yields %s, specification %s" % (desc, [(getattr(g[0], "name", g[0]), g[1], g[2]) for g in got], [(w[0].name, w[1], w[2]) for w in want]))
+    return n, problems
+
+
+def report_resolution(ctx, rule):
+    n, problems = resolution(ctx)
+    f = ctx.repo.func(P + "Parameters._spec_to_obj")
+    ctx.abstract_cases += n
+    if problems:
+        ctx.fail(rule, f, f.node, "depends model (path resolution): %s (%d disagreeing case(s))" % (problems[0], len(problems)), key=f.qualname + "::path-resolution")
+    else:
+        ctx.ok(rule, f, f.node, "depends model: %d (path, detached link) cases: every parameter on the path whose holder exists is among the parameters to watch, the leaves iff the whole path is attached" % n)
